@@ -6,7 +6,10 @@ ASSUME ndJsonSerialize("bind_init.ndjson",
          SetToSeq({[in |-> s, exp |-> ExpInit(s)] : s \in InitScenarios(MaxStr)}))
 ASSUME ndJsonSerialize("bind_recv.ndjson",
          SetToSeq({[in |-> s, exp |-> ExpRecv(s)] : s \in RecvScenarios(MaxStr)}))
+(* feature values shared by several sessions (NSess >= 4: every interleaving of four sessions) *)
+ASSUME ndJsonSerialize("bind_shared.ndjson",
+         SetToSeq({[in |-> s, exp |-> ExpShared(s)] : s \in {x \in SharedScenarios(NSess >= 4) : WellFormedShared(x)}}))
 
-EInit == sc = 0 /\ pc = "" /\ req = 0 /\ addr = 0 /\ answer = 0 /\ cbarg = 0 /\ out = ""
+EInit == sc = 0 /\ pc = "" /\ req = 0 /\ addr = 0 /\ answer = 0 /\ cbarg = 0 /\ out = "" /\ sh = 0
 ENext == UNCHANGED vars
 =============================================================================
